@@ -161,5 +161,23 @@
 (declare-fun parseAccepts (Sl.Int Int) Bool)
 (declare-fun parseTree (Sl.Int) Any)
 (declare-fun gBudget (Sl.Fn) Int)     ; the MaxExpressions budget carried by a parser option list (0 = unlimited)
-(assert (= (gBudget Sl.Fn.empty) 0))
-(assert (forall ((s Sl.Fn) (f Fn)) (! (= (gBudget (Sl.Fn.snoc s f)) (ite ((_ is fn.grammar.MaxExpressions$1) f) (fn.grammar.MaxExpressions$1.c0 f) (gBudget s))) :pattern ((gBudget (Sl.Fn.snoc s f))))))
+; the 17 expression node types of the pigeon rule table
+(define-fun knownExprTag ((t Int)) Bool
+  (or (= t tag.*grammar.actionExpr) (= t tag.*grammar.andCodeExpr) (= t tag.*grammar.andExpr) (= t tag.*grammar.anyMatcher) (= t tag.*grammar.charClassMatcher)
+      (= t tag.*grammar.choiceExpr) (= t tag.*grammar.labeledExpr) (= t tag.*grammar.litMatcher) (= t tag.*grammar.notCodeExpr) (= t tag.*grammar.notExpr)
+      (= t tag.*grammar.oneOrMoreExpr) (= t tag.*grammar.recoveryExpr) (= t tag.*grammar.ruleRefExpr) (= t tag.*grammar.seqExpr) (= t tag.*grammar.throwExpr)
+      (= t tag.*grammar.zeroOrMoreExpr) (= t tag.*grammar.zeroOrOneExpr)))
+; parser option lists (C10, C11): closed world of the generated parser's option constructors
+(define-fun knownGOpt ((f Fn)) Bool
+  (or ((_ is fn.grammar.MaxExpressions$1) f) ((_ is fn.grammar.Entrypoint$1) f) ((_ is fn.grammar.AllowInvalidUTF8$1) f) ((_ is fn.grammar.Recover$1) f) ((_ is fn.grammar.GlobalStore$1) f)))
+(declare-fun wfGOpts (Sl.Fn) Bool)
+(assert (wfGOpts Sl.Fn.empty))
+(assert (forall ((s Sl.Fn) (i Int)) (! (=> (and (wfGOpts s) (<= 0 i) (< i (Sl.Fn.len s))) (knownGOpt (Sl.Fn.at s i))) :pattern ((wfGOpts s) (Sl.Fn.at s i)))))
+(assert (forall ((s Sl.Fn) (x Fn)) (! (= (wfGOpts (Sl.Fn.snoc s x)) (and (wfGOpts s) (knownGOpt x))) :pattern ((wfGOpts (Sl.Fn.snoc s x))))))
+(declare-fun gFoldMax (Sl.Fn Int) Int)
+(assert (forall ((i Int)) (! (= (gFoldMax Sl.Fn.empty i) i) :pattern ((gFoldMax Sl.Fn.empty i)))))
+(assert (forall ((s Sl.Fn) (f Fn) (i Int)) (! (= (gFoldMax (Sl.Fn.snoc s f) i) (ite ((_ is fn.grammar.MaxExpressions$1) f) (fn.grammar.MaxExpressions$1.c0 f) (gFoldMax s i))) :pattern ((gFoldMax (Sl.Fn.snoc s f) i)))))
+(assert (forall ((s Sl.Fn)) (! (= (gBudget s) (gFoldMax s 0)) :pattern ((gBudget s)))))
+(declare-fun gFoldRecover (Sl.Fn Bool) Bool)
+(assert (forall ((b Bool)) (! (= (gFoldRecover Sl.Fn.empty b) b) :pattern ((gFoldRecover Sl.Fn.empty b)))))
+(assert (forall ((s Sl.Fn) (f Fn) (b Bool)) (! (= (gFoldRecover (Sl.Fn.snoc s f) b) (ite ((_ is fn.grammar.Recover$1) f) (fn.grammar.Recover$1.c0 f) (gFoldRecover s b))) :pattern ((gFoldRecover (Sl.Fn.snoc s f) b)))))
